@@ -24,7 +24,7 @@ import (
 func init() {
 	Registry["C11"] = &Check{
 		Scenarios: c11Scenarios,
-		Rule: "every fifth refused CER meets a transient transport error on the write of its failure CEA (the connection must be closed all the same); an absent Origin-Host / Origin-Realm takes three forms in rotation (not there, there but empty, only inside a Proxy-Info group); the server's own Settings.VendorID alternates between 99 (no application's vendor) and 10415 (the vendor of the 3GPP applications a CER may share); every CER over Origin-Host {absent, present} x Origin-Realm {absent, present} x Inband-Security-Id {absent, 0, 1, 2^31-1, the list [0, 1], code 299 under a foreign vendor id (not the IETF AVP)} x every sequence (so every order) of <=2 (thorough 3) application AVPs over 20 atoms (18 + Auth / Acct of an application id that a dictionary loaded into dict.Default declares under both types): Acct-Application-Id {3 supported, 4 wrong type, 999 unsupported, relay}, Auth-Application-Id {4, 3 wrong type, 999, relay}, Vendor-Specific-Application-Id groups {[Vendor-Id, Auth 4], [Auth 999, Vendor-Id], [Vendor-Id, Auth 999], [Vendor-Id, Acct 3], [Vendor-Id], [Auth 16777251], [Acct 999], [Auth 4, Auth 999], [Auth 999, Auth 4], []}; settings with configured HostIPAddresses, with the deprecated single HostIPAddress only, and without configured addresses; local endpoint over {10.1.2.3, loopback, an IPv6 address in brackets, link-local IPv4 and IPv6 addresses, a multihomed SCTP endpoint 127.0.0.1/10.1.2.3/[2001:db8::7]}; hop-by-hop / end-to-end ids rotate over {0,1,2^31,2^32-1}. Without configured addresses the local endpoint rotates over the list from one connection to the next. Each CER is sent end-to-end, on a connection of its own, to ONE state machine per scenario (so a verdict that depends on earlier CERs is caught; the visiting order alternates rich and poor CERs) over the in-memory transport, followed by an RAR whose gated handler reads the connection metadata. One deterministic schedule per CER (the quantifier is over inputs).",
+		Rule: "every fifth refused CER meets a transient transport error on the write of its failure CEA (the connection must be closed all the same); an absent Origin-Host / Origin-Realm takes three forms in rotation (not there, there but empty, only inside a Proxy-Info group); the server's own Settings.VendorID alternates between 99 (no application's vendor) and 10415 (the vendor of the 3GPP applications a CER may share); every CER over Origin-Host {absent, present} x Origin-Realm {absent, present} x Inband-Security-Id {absent, 0, 1, 2^31-1, the list [0, 1], code 299 under a foreign vendor id (not the IETF AVP)} x every sequence (so every order) of <=2 (thorough 3) application AVPs over 20 atoms (18 + Auth / Acct of an application id that a dictionary loaded into dict.Default declares under both types): Acct-Application-Id {3 supported, 4 wrong type, 999 unsupported, relay}, Auth-Application-Id {4, 3 wrong type, 999, relay}, Vendor-Specific-Application-Id groups {[Vendor-Id, Auth 4], [Auth 999, Vendor-Id], [Vendor-Id, Auth 999], [Vendor-Id, Acct 3], [Vendor-Id], [Auth 16777251], [Acct 999], [Auth 4, Auth 999], [Auth 999, Auth 4], []}; settings with configured HostIPAddresses, with the deprecated single HostIPAddress only, and without configured addresses; local endpoint over {10.1.2.3, loopback, an IPv6 address in brackets, link-local IPv4 and IPv6 addresses, a multihomed SCTP endpoint 127.0.0.1/10.1.2.3/[2001:db8::7], and - with configured addresses - an endpoint that is not ip:port at all (a socket path)}; hop-by-hop / end-to-end ids rotate over {0,1,2^31,2^32-1}. Without configured addresses the local endpoint rotates over the list from one connection to the next. Each CER is sent end-to-end, on a connection of its own, to ONE state machine per scenario (so a verdict that depends on earlier CERs is caught; the visiting order alternates rich and poor CERs) over the in-memory transport, followed by an RAR whose gated handler reads the connection metadata. One deterministic schedule per CER (the quantifier is over inputs).",
 		Assume: []string{"reference acceptance predicate written from the statement, with application support read from the independent refdict model of the embedded XML", "single default schedule per input", "the library treats every net.Conn alike (in-memory transport; audited by bin/check with one replay of the refused-CER traces on a kernel loopback TCP socket)"},
 		QuickBudget: 120, ThoroughBudget: 1800,
 	}
@@ -120,8 +120,11 @@ func c11Scenarios(tier string) []*Scenario {
 			for _, inband := range []int{-1, 0, 1, 0x7fffffff, c11InbandList, c11InbandForeign} {
 				for _, cfgIP := range []bool{true, false} {
 					for loop := 0; loop < len(c11Locals); loop++ {
-						if cfgIP && loop >= 2 {
-							continue // with configured addresses the local endpoint is not consulted
+						if cfgIP && loop >= 2 && loop != len(c11Locals)-1 {
+							continue // with configured addresses the local endpoint is not consulted: two ordinary ones and the one that is not ip:port
+						}
+						if !cfgIP && loop == len(c11Locals)-1 {
+							continue
 						}
 						host, realm, inband, cfgIP, loop := host, realm, inband, cfgIP, loop
 						out = append(out, &Scenario{Name: fmt.Sprintf("cer/host=%v/realm=%v/inband=%d/configuredIP=%v/local=%s", host, realm, inband, cfgIP, c11Locals[loop].addr),
@@ -147,6 +150,9 @@ var c11Locals = []struct {
 	{"169.254.10.7:3868", [][]byte{refcodec.Address(1, []byte{169, 254, 10, 7})}},
 	{"[fe80::1]:3868", [][]byte{refcodec.Address(2, net.ParseIP("fe80::1").To16())}},
 	{"127.0.0.1/10.1.2.3/[2001:db8::7]:3868", [][]byte{refcodec.Address(1, []byte{127, 0, 0, 1}), refcodec.Address(1, []byte{10, 1, 2, 3}), refcodec.Address(2, net.ParseIP("2001:db8::7").To16())}},
+	// an endpoint that is not ip:port at all (a unix domain socket, a pipe): only used with
+	// configured addresses, where the local endpoint has no say
+	{"/run/diameter/peer.sock", nil},
 }
 
 // c11AddrSubset: got is a non-empty, duplicate-free list of addresses of the local endpoint.
@@ -227,7 +233,7 @@ func c11Run(r *SeqResult, host, realm bool, inband int, cfgIP bool, loop int, ma
 		// address of ITS connection
 		loop := baseLoop
 		if !cfgIP {
-			loop = (baseLoop + step) % len(c11Locals)
+			loop = (baseLoop + step) % (len(c11Locals) - 1) // the endpoint that is not ip:port is for configured addresses only
 		}
 		var avps []refcodec.Node
 		// "absent" has three forms that rotate with the position in the enumeration: the AVP is not
